@@ -2825,6 +2825,7 @@ func deviceWant(a, b *fixture.Proto) (want []error) {
 }
 
 const forwarderFrame = "mangos/v3.forwarder"
+const deviceCreator = "created by go.nanomsg.org/mangos/v3.Device"
 
 // countForwarders is fixture.CountGoroutines(forwarderFrame) with a small, growing buffer
 // (it is called about a thousand times).
@@ -2840,9 +2841,11 @@ func countForwarders() int {
 	}
 	c := 0
 	for _, g := range bytes.Split(buf, []byte("\n\n")) {
-		if bytes.Contains(g, []byte(forwarderFrame)) {
+		if bytes.Contains(g, []byte(forwarderFrame)) || bytes.Contains(g, []byte(deviceCreator)) {
 			c++
 			lastForwarder = string(g)
+		} else if bytes.Contains(g, []byte("unavailable")) {
+			fmt.Printf("UNAVAILABLE: %s\n", g)
 		}
 	}
 	return c
